@@ -5,7 +5,11 @@ package w
 import (
 	authtypes "github.com/cosmos/cosmos-sdk/x/auth/types"
 
+	sdk "github.com/cosmos/cosmos-sdk/types"
+
 	"github.com/unification-com/mainchain/app"
+	undcmd "github.com/unification-com/mainchain/cmd/und/cmd"
+	undtypes "github.com/unification-com/mainchain/types"
 	enttypes "github.com/unification-com/mainchain/x/enterprise/types"
 	streamtypes "github.com/unification-com/mainchain/x/stream/types"
 	"github.com/unification-com/mainchain/zz_verif/rt"
@@ -107,8 +111,8 @@ func H_C06_Wiring() {
 	rt.Reach("end")
 }
 
-// H_C02_WiringModules: no inflationary mint module is wired into the application, and the
-// enterprise supply routes are registered before the bank module's (C17).
+// H_C02_WiringModules: no inflationary mint module is wired into the application (the route
+// order that C17 needs is in H_C17_WiringSupplyEndpoints).
 func H_C02_WiringModules() {
 	if !rtw.Static() {
 		rt.Assert("C02.no-mint-module", !rtw.HasModule("mint"))
@@ -118,11 +122,6 @@ func H_C02_WiringModules() {
 	tr := rtw.StaticTrace("github.com/unification-com/mainchain/app.NewApp")
 	rt.Assert("C02.no-mint-module", indexOf(tr, func(s string) bool { return contains(s, "/x/mint") }) < 0)
 	rt.Assert("C02.enterprise-keeper-constructed", indexOf(tr, func(s string) bool { return contains(s, "x/enterprise/keeper.NewKeeper") }) >= 0)
-	rr := rtw.StaticTrace("(*github.com/unification-com/mainchain/app.App).RegisterAPIRoutes")
-	lk := indexOf(rr, func(s string) bool { return s == "lookup:enterprise" })
-	inv := indexOf(rr, func(s string) bool { return s == "invoke:RegisterGRPCGatewayRoutes" })
-	all := indexOf(rr, func(s string) bool { return contains(s, "module.BasicManager).RegisterGRPCGatewayRoutes") })
-	rt.Assert("C17.enterprise-routes-registered-first", lk >= 0 && lk < inv && inv < all)
 	rt.Reach("end")
 }
 
@@ -216,5 +215,75 @@ func H_C03_WiringBeginBlock() {
 	order := rtw.BeginBlockOrder()
 	rt.Assert("C03+C14.enterprise-begin-blocker-registered", lastIndex(order, "enterprise") >= 0)
 	rt.Assert("C03+C14.upgrade-runs-before-every-other-begin-blocker", len(order) > 0 && order[0] == "upgrade")
+	rt.Reach("end")
+}
+
+// H_C17_WiringSupplyEndpoints: every public way of asking for "the total supply" reports the
+// Enterprise figure (total minus locked eFUND), not the bank module's: the REST paths of the bank
+// module's supply queries are served by the Enterprise overrides (its gateway routes are
+// registered first), and the command line's `query supply` and `query bank total` call the
+// Enterprise query service.
+func H_C17_WiringSupplyEndpoints() {
+	const ent = "/mainchain.enterprise.v1.Query/"
+	if !rtw.Static() {
+		rt.Assert("C17.rest-bank-supply-served-by-enterprise", rtw.ProbeRESTMethod("/cosmos/bank/v1beta1/supply") == ent+"TotalSupplyOverwrite")
+		rt.Assert("C17.rest-bank-supply-of-served-by-enterprise", rtw.ProbeRESTMethod("/cosmos/bank/v1beta1/supply/by_denom?denom=nund") == ent+"SupplyOfOverwrite")
+		rt.Assert("C17.cli-query-supply-asks-enterprise", rtw.ProbeCLIMethod("query", "supply") == ent+"TotalSupply" && rtw.ProbeCLIMethod("query", "supply", "--denom=nund") == ent+"SupplyOf")
+		rt.Assert("C17.cli-bank-total-asks-enterprise", rtw.ProbeCLIMethod("query", "bank", "total") == ent+"TotalSupply" && rtw.ProbeCLIMethod("query", "bank", "total", "--denom=nund") == ent+"SupplyOf")
+		return
+	}
+	rr := rtw.StaticTrace("(*github.com/unification-com/mainchain/app.App).RegisterAPIRoutes")
+	lk := indexOf(rr, func(s string) bool { return s == "lookup:enterprise" })
+	inv := indexOf(rr, func(s string) bool { return s == "invoke:RegisterGRPCGatewayRoutes" })
+	all := indexOf(rr, func(s string) bool { return contains(s, "module.BasicManager).RegisterGRPCGatewayRoutes") })
+	rt.Assert("C17.rest-bank-supply-served-by-enterprise", lk >= 0 && lk < inv && inv < all)
+	rt.Assert("C17.rest-bank-supply-of-served-by-enterprise", lk >= 0 && lk < inv && inv < all)
+	const qc = "invoketype:github.com/unification-com/mainchain/x/enterprise/types.QueryClient."
+	entOnly := func(fn string) bool {
+		tr := rtw.StaticTrace(fn)
+		ts := indexOf(tr, func(s string) bool { return s == qc+"TotalSupply" })
+		so := indexOf(tr, func(s string) bool { return s == qc+"SupplyOf" })
+		other := indexOf(tr, func(s string) bool {
+			return contains(s, "invoketype:") && contains(s, "QueryClient.") && s != qc+"TotalSupply" && s != qc+"SupplyOf"
+		})
+		return ts >= 0 && so >= 0 && other < 0
+	}
+	const pkg = "github.com/unification-com/mainchain/cmd/und/cmd."
+	qcmd := rtw.StaticTrace(pkg + "queryCommand")
+	reg := func(name string) bool { return indexOf(qcmd, func(s string) bool { return s == pkg+name }) >= 0 }
+	rt.Assert("C17.cli-query-supply-asks-enterprise", entOnly(pkg+"GetTotalSupplyCmd$1") && reg("GetTotalSupplyCmd"))
+	rm := indexOf(qcmd, func(s string) bool { return contains(s, "cobra.Command).RemoveCommand") })
+	rt.Assert("C17.cli-bank-total-asks-enterprise", entOnly(pkg+"GetCmdQueryTotalSupplyOverrideBankDefault$1") && reg("GetCmdQueryTotalSupplyOverrideBankDefault") && rm >= 0)
+	rt.Reach("end")
+}
+
+// H_C19_WiringConvertCmd: the `und convert` command is a pass-through of the exact conversion:
+// for every decimal amount (|value| < 10^30, at most nine fractional digits) and both directions
+// it fails exactly when types.ConvertUndDenomination fails on the very same arguments and
+// otherwise prints "<amount><from> = <exact result>". The reference is the real conversion
+// function, which H_C19_* decide against integer arithmetic.
+func H_C19_WiringConvertCmd() {
+	amt := rt.Str("amount")
+	d, perr := sdk.NewDecFromStr(amt)
+	rt.Assume(perr == nil)
+	raw := rt.DecRawOf(d)
+	e9 := sdk.NewInt(1000000000)
+	lim := sdk.NewIntFromUint64(1000000000000000000).Mul(sdk.NewIntFromUint64(1000000000000000000)).Mul(sdk.NewInt(1000000000000))
+	rt.Assume(rt.IntEq(rt.IntMod(raw, e9), sdk.ZeroInt()))
+	rt.Assume(rt.And(rt.IntLt(raw, lim), rt.IntLt(lim.Neg(), raw)))
+	from, to := "fund", "nund"
+	if rt.Choose(2) == 1 {
+		from, to = "nund", "fund"
+	}
+	want, werr := undtypes.ConvertUndDenomination(amt, from, to)
+	c := undcmd.GetDenomConversionCmd()
+	rtw.PrepareCmd(c)
+	err := c.RunE(c, []string{amt, from, to})
+	out := rtw.Printed()
+	rt.Assert("C19.cli-fails-exactly-when-conversion-fails", (err != nil) == (werr != nil))
+	if err == nil && werr == nil {
+		rt.Assert("C19.cli-prints-the-exact-conversion-of-its-arguments", rt.StrEq(out, amt+from+" = "+want+"\n"))
+		rt.Reach("converted")
+	}
 	rt.Reach("end")
 }
